@@ -284,6 +284,14 @@ def subpackage_tree(run: Run):
                             # ... and the child's own `protos` (by the API.protos contract) still holds the file, under the same key
                             f"key in {child}.protos and {child}.protos[key] is p"])
     run.verify(m, lem, body_override=(fdef, "ghost"))
+    # the base case: the root API object (empty view) holds exactly the files to generate
+    m.classes["API"]["protos"] = "Map[Str,Proto]"
+    fbase = ast.parse("def reach_base(api):\n    return api.protos\n").body[0]
+    base = Contract("lemma.subpackage-tree-reaches-every-file:base", source=("<ghost>", "reach_base"), params={"api": "API"}, result="Map[Str,Proto]",
+                    requires=["len(api.subpackage_view) == 0"],
+                    ensures=["forall(lambda k: (k in result) == api.all_protos[k].file_to_generate, api.all_protos.keys())",
+                             "forall(lambda k: k in api.all_protos and result[k] is api.all_protos[k], result.keys())"])
+    run.verify(m, base, body_override=(fbase, "ghost"))
     # the generator walks exactly this tree: _render_template recurses over api_schema.subpackages.values() for %sub templates
     fdef2, h2 = find_def(GEN, "Generator._render_template")
     src = ast.unparse(fdef2)
